@@ -13,6 +13,9 @@ pub mod c07;
 pub mod c08;
 pub mod c09;
 pub mod c10;
+pub mod c11;
+pub mod c12;
+pub mod c13;
 pub mod c14;
 pub mod c15;
 pub mod c16;
@@ -35,12 +38,16 @@ pub fn make(name: &str, tier: Tier) -> Option<Box<dyn Prop>> {
         "c08" => Box::new(c08::C08::default()),
         "c09" => Box::new(c09::C09::default()),
         "c10" => Box::new(c10::C10::default()),
+        "c11" => Box::new(c11::C11::default()),
+        "c12" => Box::new(c12::C12::default()),
+        "c13" => Box::new(c13::C13::default()),
         "c14" => Box::new(c14::C14::default()),
         "c15" => Box::new(c15::C15::default()),
         "c16" => Box::new(c16::SimTl { prop: 16 }),
         "c17" => Box::new(c16::SimTl { prop: 17 }),
         "c18" => Box::new(c16::SimTl { prop: 18 }),
         "c19" => Box::new(c19::C19::default()),
+        "c20" => Box::new(c20::C20::default()),
         "c05x" => Box::new(c05x::C05x::default()),
         _ => return None,
     })
